@@ -113,4 +113,5 @@ func id(n string) ast.Expr { return &ast.Ident{Name: n} }
 func genMore(outDir string) {
 	genEpochs(outDir)
 	genAccum(outDir)
+	genAuth(outDir)
 }
